@@ -903,6 +903,101 @@ theorem trash_fold_inv (cut : Nat) (l : List (Bytes × Bytes)) (pfx : Bytes) (de
           · left; exact h
           · right; exact shift pfx (fun h' => Or.inl h') h
 
+/-- byte strings between two strings that share the prefix `p` share it too. -/
+theorem prefix_interval (p e y x : Bytes) (he : p <+: e) (hx : p <+: x)
+    (h1 : ble e y = true) (h2 : ble y x = true) : p <+: y := by
+  induction p generalizing e y x with
+  | nil => exact List.nil_prefix
+  | cons c p' ih =>
+    obtain ⟨e', rfl⟩ : ∃ e', e = c :: e' := by
+      obtain ⟨t, ht⟩ := he; exact ⟨p' ++ t, by rw [← ht]; rfl⟩
+    obtain ⟨x', rfl⟩ : ∃ x', x = c :: x' := by
+      obtain ⟨t, ht⟩ := hx; exact ⟨p' ++ t, by rw [← ht]; rfl⟩
+    cases y with
+    | nil => simp [ble] at h1
+    | cons d y' =>
+      simp only [ble] at h1 h2
+      have hcd : ¬ d < c := by
+        intro hlt
+        have : ¬ c < d := by omega
+        simp [this, hlt] at h1
+      have hdc : ¬ c < d := by
+        intro hlt
+        have : ¬ d < c := by omega
+        simp [this, hlt] at h2
+      have hd : d = c := by omega
+      subst hd
+      simp only [hcd, if_false] at h1 h2
+      have he' : p' <+: e' := (List.cons_prefix_cons.1 he).2
+      have hx' : p' <+: x' := (List.cons_prefix_cons.1 hx).2
+      exact List.cons_prefix_cons.2 ⟨rfl, ih e' y' x' he' hx' h1 h2⟩
+
+/-- while every visited record extends the current prefix, `Trash` keeps that prefix and collects
+every visited record whose version is at most the cut. -/
+theorem trash_fold_covered (cut : Nat) (l : List (Bytes × Bytes)) (p : Bytes) (dels : List Bytes)
+    (hall : ∀ a ∈ l, p.isPrefixOf a.1 = true) :
+    (l.foldl (trashStep cut) (p, dels)).1 = p ∧
+    (∀ k ∈ dels, k ∈ (l.foldl (trashStep cut) (p, dels)).2) ∧
+    (∀ a ∈ l, ∀ v, getVersion a.1 = some v → v ≤ Int.ofNat cut → a.1 ∈ (l.foldl (trashStep cut) (p, dels)).2) := by
+  induction l generalizing dels with
+  | nil => exact ⟨rfl, fun k hk => hk, fun a ha => by cases ha⟩
+  | cons a rest ih =>
+    have ha := hall a List.mem_cons_self
+    have hrest := fun b hb => hall b (List.mem_cons_of_mem _ hb)
+    simp only [List.foldl_cons]
+    have hstep : trashStep cut (p, dels) a =
+        (p, match getVersion a.1 with
+            | some v => if v ≤ Int.ofNat cut then a.1 :: dels else dels
+            | none => dels) := by
+      unfold trashStep
+      simp only [ha, Bool.not_true, Bool.false_eq_true, if_false]
+      cases getVersion a.1 with
+      | none => rfl
+      | some v =>
+        by_cases hv : v ≤ Int.ofNat cut
+        · show (if v ≤ Int.ofNat cut then _ else _) = _
+          rw [if_pos hv]; show _ = (p, if v ≤ Int.ofNat cut then _ else _); rw [if_pos hv]
+        · show (if v ≤ Int.ofNat cut then _ else _) = _
+          rw [if_neg hv]; show _ = (p, if v ≤ Int.ofNat cut then _ else _); rw [if_neg hv]
+    rw [hstep]
+    obtain ⟨i1, i2, i3⟩ := ih _ hrest
+    refine ⟨i1, ?_, ?_⟩
+    · intro k hk
+      apply i2
+      cases getVersion a.1 with
+      | none => exact hk
+      | some v =>
+        show k ∈ (if v ≤ Int.ofNat cut then a.1 :: dels else dels)
+        by_cases hv : v ≤ Int.ofNat cut
+        · rw [if_pos hv]; exact List.mem_cons_of_mem _ hk
+        · rw [if_neg hv]; exact hk
+    · intro b hb v hv hle
+      rcases List.mem_cons.1 hb with h | h
+      · subst h
+        apply i2
+        rw [hv]
+        show b.1 ∈ (if v ≤ Int.ofNat cut then b.1 :: dels else dels)
+        rw [if_pos hle]; exact List.mem_cons_self
+      · exact i3 b h v hv hle
+
+theorem trash_fold_mono (cut : Nat) (l : List (Bytes × Bytes)) (st : Bytes × List Bytes) :
+    ∀ k ∈ st.2, k ∈ (l.foldl (trashStep cut) st).2 := by
+  induction l generalizing st with
+  | nil => intro k hk; exact hk
+  | cons a rest ih =>
+    intro k hk
+    simp only [List.foldl_cons]
+    apply ih
+    unfold trashStep
+    simp only
+    split
+    · exact hk
+    · split
+      · exact hk
+      · split
+        · exact List.mem_cons_of_mem _ hk
+        · exact hk
+
 /-! ### reads -/
 
 theorem specRead_spec (db : DB) (k : Bytes) (v : Nat) :
